@@ -23,6 +23,7 @@ import (
 )
 
 type proc struct {
+	args   []string
 	cmd    *exec.Cmd
 	api    int
 	repl   int
@@ -79,19 +80,45 @@ func startProcSchemes(scheme, replScheme, kind string, extra ...string) *proc {
 		args = append(args, fmt.Sprintf("--replication.address=%s://127.0.0.1:%d", replScheme, p.repl))
 	}
 	args = append(args, extra...)
-	p.cmd = exec.Command(regattaBin(), args...)
-	lf, err := os.Create(filepath.Join(p.dir, "log.txt"))
+	p.args = args
+	p.launch()
+	return p
+}
+
+// launch starts (or, after halt, starts again on the same directories and ports) the process.
+func (p *proc) launch() {
+	p.done = make(chan struct{})
+	p.exited.Store(false)
+	p.cmd = exec.Command(regattaBin(), p.args...)
+	lf, err := os.OpenFile(filepath.Join(p.dir, "log.txt"), os.O_CREATE|os.O_WRONLY|os.O_APPEND, 0o644)
 	must(err)
 	p.cmd.Stdout, p.cmd.Stderr = lf, lf
 	p.cmd.Dir = p.dir
 	must(p.cmd.Start())
+	done := p.done
 	go func() {
 		_ = p.cmd.Wait()
 		p.exited.Store(true)
-		close(p.done)
+		close(done)
 		lf.Close()
 	}()
-	return p
+}
+
+// halt stops the process (SIGTERM, the way an operator restarts a node) and keeps its directories.
+func (p *proc) halt() {
+	if p.conn != nil {
+		p.conn.Close()
+		p.conn = nil
+	}
+	if p.alive() {
+		_ = p.cmd.Process.Signal(syscall.SIGTERM)
+		select {
+		case <-p.done:
+		case <-time.After(15 * time.Second):
+			_ = p.cmd.Process.Kill()
+			<-p.done
+		}
+	}
 }
 
 func (p *proc) alive() bool { return !p.exited.Load() }
